@@ -164,14 +164,14 @@ Lemma sieve_step_all s cl : sieve_inv s ->
   sieve_inv (fst (sieve_step s cl)) /\
   let '(s', o) := sieve_step s cl in step_ok admit_full (sieve_tr s) cl o (sieve_tr s').
 Proof.
-  unfold sieve_inv. intros H. destruct cl as [k c|k c|k|n|]; cbn [sieve_step fst step_ok].
+  unfold sieve_inv. intros H. destruct cl as [k c|k c|k|n|]; cbn [sieve_step fst step_ok step_okG access_keep].
   - unfold sieve_tr. cbn [sv_r]. rewrite etr_eset. split; [exact H | apply Permutation_refl].
   - rewrite sieve_admit_tr. split; [apply snoc_rm_NoDup; exact H|].
     unfold admit_full. apply Permutation_sym, Permutation_cons_append.
   - unfold sieve_tr, sieve_remove. cbn [sv_r]. rewrite etr_erm.
     split; [apply rm_NoDup; exact H | apply Permutation_refl].
   - destruct (evict_loop sieve_evict_one (length (sv_r s)) n 0 s []) as [[s' vs] f] eqn:E.
-    cbn [fst step_ok].
+    cbn [fst step_ok step_okG access_keep].
     assert (Hlen : length (sv_r s) = length (sieve_tr s)) by (unfold sieve_tr, etr; rewrite map_length; reflexivity).
     rewrite Hlen in E.
     destruct (evict_loop_ok sieve_evict_one sieve_tr sieve_one_some sieve_one_none _ _ _ _ _ H E) as [A B].
@@ -268,7 +268,7 @@ Lemma clock_step_all s cl : clock_inv s ->
   clock_inv (fst (clock_step s cl)) /\
   let '(s', o) := clock_step s cl in step_ok admit_keep_old (clock_tr s) cl o (clock_tr s').
 Proof.
-  unfold clock_inv. intros H. destruct cl as [k c|k c|k|n|]; cbn [clock_step fst step_ok].
+  unfold clock_inv. intros H. destruct cl as [k c|k c|k|n|]; cbn [clock_step fst step_ok step_okG access_keep].
   - unfold clock_tr. cbn [ck_o]. rewrite etr_eset. split; [exact H | apply Permutation_refl].
   - unfold clock_admit, admit_keep_old. rewrite ehas_lookup. fold (clock_tr s).
     destruct (lookup k (clock_tr s)) eqn:E.
@@ -282,7 +282,7 @@ Proof.
     + split; [exact H|]. apply eindex_lookup in E. fold (clock_tr s) in E.
       rewrite rm_id; [apply Permutation_refl | apply lookup_None; exact E].
   - destruct (evict_loop clock_evict_one (length (ck_o s)) n 0 s []) as [[s' vs] f] eqn:E.
-    cbn [fst step_ok].
+    cbn [fst step_ok step_okG access_keep].
     assert (Hlen : length (ck_o s) = length (clock_tr s)) by (unfold clock_tr, etr; rewrite map_length; reflexivity).
     rewrite Hlen in E.
     destruct (evict_loop_ok clock_evict_one clock_tr clock_one_some clock_one_none _ _ _ _ _ H E) as [A B].
